@@ -68,6 +68,12 @@ func runSession(s *session, k int, kind FKind) run {
 	r := run{fire: -1}
 	for i, t := range s.Texts {
 		was := it.fired
+		if kind == KTwin && t.Role == "interlude" {
+			// the twin never sees a text that is rejected as a whole
+			r.obs = append(r.obs, "SKIP")
+			r.rest = append(r.rest, restOf(env))
+			continue
+		}
 		o := it.evalOn(env, t.Src)
 		r.obs = append(r.obs, o)
 		r.rest = append(r.rest, restOf(env))
@@ -130,7 +136,7 @@ func anomalies(s *session, kind FKind, a, b run) []string {
 		if i >= len(b.obs) {
 			break
 		}
-		if a.obs[i] != b.obs[i] {
+		if a.obs[i] != b.obs[i] && b.obs[i] != "SKIP" {
 			add("twin", i, "impl "+a.obs[i]+" twin "+b.obs[i]+" src "+esc(s.Texts[i].Src))
 			break
 		}
@@ -228,7 +234,32 @@ type stats struct {
 // enumerate runs the fault enumeration of one session; emit is called once per k (0 = clean).
 func enumerate(s *session, kinds []FKind, emit func(k int, a run, anoms []string)) (n int) {
 	clean := runSession(s, 0, KScript)
-	emit(0, clean, nil)
+	var cleanAnoms []string
+	hasInterlude := false
+	for _, t := range s.Texts {
+		hasInterlude = hasInterlude || t.Role == "interlude"
+	}
+	if hasInterlude {
+		// no injected failure, but the rejected text is a failed evaluation too: compare with an
+		// interpreter that never saw it
+		tw := runSession(s, 0, KTwin)
+		for i := range clean.obs {
+			if i < len(tw.obs) && tw.obs[i] != "SKIP" && clean.obs[i] != tw.obs[i] {
+				cleanAnoms = append(cleanAnoms, fmt.Sprintf("twin kind=rejected-text text=%d impl %s twin %s src %s", i, clean.obs[i], tw.obs[i], esc(s.Texts[i].Src)))
+				break
+			}
+		}
+		for i, t := range s.Texts {
+			if t.Role == "interlude" && i < len(clean.obs) {
+				if strings.HasPrefix(clean.obs[i], "V:") {
+					cleanAnoms = append(cleanAnoms, fmt.Sprintf("swallowed kind=rejected-text text=%d outcome %s for a text that must be rejected: %s", i, clean.obs[i], esc(t.Src)))
+				} else if !clean.rest[i].AtRest() && (i == 0 || clean.rest[i-1].AtRest()) {
+					cleanAnoms = append(cleanAnoms, fmt.Sprintf("unrest kind=rejected-text text=%d %s", i, clean.rest[i]))
+				}
+			}
+		}
+	}
+	emit(0, clean, cleanAnoms)
 	n = clean.calls
 	if n > capK {
 		n = capK
@@ -412,6 +443,7 @@ func main() {
 		files = append(files, fn)
 		c := exec.Command(self, "--seed", fmt.Sprint(a.Seed), "--tier", a.Tier, "--out", fn,
 			"--programs", fmt.Sprint(nprog), "--worker", fmt.Sprintf("%d/%d", w, workers))
+		c.Env = append(os.Environ(), "GOMAXPROCS=2", "GOGC=400") // one busy goroutine per worker; fewer collections
 		c.Stdout = io.Discard // the interpreter prints debug lines of its own (LenFunction)
 		c.Stderr = os.Stderr
 		if err := c.Start(); err != nil {
@@ -562,7 +594,11 @@ func replay(path string) {
 	}
 	s := &session{Names: w.Names}
 	for _, t := range w.Texts {
-		s.Texts = append(s.Texts, Text{Src: t})
+		role := "prog"
+		if strings.HasPrefix(t, "(def zz1 5)") {
+			role = "interlude"
+		}
+		s.Texts = append(s.Texts, Text{Src: t, Role: role})
 	}
 	bad := 0
 	tw := runSession(s, w.Failat, KTwin)
@@ -573,6 +609,19 @@ func replay(path string) {
 		for _, an := range anomalies(s, FKind(k), r, tw) {
 			fmt.Println("  ANOMALY", an)
 			bad++
+		}
+	}
+	if w.Failat > 0 {
+		clean := runSession(s, 0, KScript)
+		fmt.Printf("%-18s: %s\n", "clean run", strings.Join(clean.obs, " ;; "))
+		for c := 0; c < nCatchKinds; c++ {
+			kind := firstCatch + FKind(c)
+			r := runSession(s, w.Failat, kind)
+			fmt.Printf("%-18s: %s\n", kind, strings.Join(r.obs, " ;; "))
+			for _, an := range catchAnomalies(s, kind, r, clean) {
+				fmt.Println("  ANOMALY", an)
+				bad++
+			}
 		}
 	}
 	if bad > 0 {
